@@ -71,3 +71,17 @@ ENTRIES += [
     N('producer-start-guard-stopping', "        if self._state != PipelineState.running:\n            # stop() was called", "        if self._state in (PipelineState.stopping, PipelineState.stopped):\n            # stop() was called"),
     N('shutdown-results-retrieved', "            yield from asyncio.wait(self._worker_tasks)\n", "            done = (yield from asyncio.wait(self._worker_tasks))[0]\n            for task in done:\n                task.exception()\n"),
 ]
+
+RM = 'wpull/application/tasks/resmon.py'
+_RM_OLD = "        if resmon_semaphore.locked():\n            use_log = False\n        else:\n            use_log = True\n            yield from resmon_semaphore.acquire()\n"
+ENTRIES += [
+    {'id': 'C13/resmon-acquire-unconditional', 'prop': 'C13', 'kind': 'break', 'expect': 'C13-D8',
+     'edits': [(RM, _RM_OLD, "        use_log = not resmon_semaphore.locked()\n        yield from resmon_semaphore.acquire()\n")]},
+    {'id': 'C13/resmon-release-dropped', 'prop': 'C13', 'kind': 'break', 'expect': 'C13-D8',
+     'edits': [(RM, "        if use_log:\n            resmon_semaphore.release()\n", "        pass\n")]},
+    {'id': 'C13/benign-resmon-flag-first', 'prop': 'C13', 'kind': 'benign',
+     'edits': [(RM, _RM_OLD, "        use_log = not resmon_semaphore.locked()\n\n        if use_log:\n            yield from resmon_semaphore.acquire()\n")]},
+    {'id': 'C13/benign-resmon-try-finally', 'prop': 'C13', 'kind': 'benign',
+     'edits': [(RM, "        yield from self._polling_sleep(resource_monitor, log=use_log)\n\n        if use_log:\n            resmon_semaphore.release()\n",
+                "        try:\n            yield from self._polling_sleep(resource_monitor, log=use_log)\n        finally:\n            if use_log:\n                resmon_semaphore.release()\n")]},
+]
